@@ -967,6 +967,26 @@ func (g *Gen) enterLoop(fr *Frame, li *loopInfo, st *State, r string, order []*s
 	// 3. havoc
 	st = st.Clone()
 	li.phiHav = map[*ssa.Phi]Val{}
+	if g.vc.clock == "" {
+		g.vc.clock = "0"
+	}
+	epoch := g.vc.freshConst(fr.id+"epoch", "Int")
+	g.vc.lines = append(g.vc.lines, fmt.Sprintf("(assert (> %s %s))", epoch, g.vc.clock))
+	g.vc.clock = epoch
+	older := func(v Val) {
+		// loop-carried references denote objects that already exist at this visit of the loop head
+		switch v.S {
+		case "Slice":
+			g.vc.assume("", fmt.Sprintf("(< (allocid$ (sarr %s)) %s)", v.T, epoch))
+		case "Int":
+			if v.Ty != nil {
+				switch types.Unalias(v.Ty).Underlying().(type) {
+				case *types.Pointer, *types.Map, *types.Chan:
+					g.vc.assume("", fmt.Sprintf("(< (allocid$ %s) %s)", v.T, epoch))
+				}
+			}
+		}
+	}
 	for _, in := range h.Instrs {
 		phi, ok := in.(*ssa.Phi)
 		if !ok {
@@ -980,6 +1000,7 @@ func (g *Gen) enterLoop(fr *Frame, li *loopInfo, st *State, r string, order []*s
 		_ = entryVal
 		fr.vals[phi] = v
 		li.phiHav[phi] = v
+		older(v)
 		if o := fr.objForPhi(phi); o != nil {
 			st.src[o] = v
 			st.srcAddr[o] = false
@@ -1011,6 +1032,7 @@ func (g *Gen) enterLoop(fr *Frame, li *loopInfo, st *State, r string, order []*s
 		if old.Ty == nil {
 			nv = Val{T: g.vc.freshConst("cl$"+k, old.S), S: old.S}
 		}
+		older(nv)
 		st.cells[k] = nv
 	}
 	// 4. assume invariants
@@ -1099,6 +1121,7 @@ func (fr *Frame) topKey() string {
 func (g *Gen) dryRun(fr *Frame, li *loopInfo, st *State, order []*ssa.BasicBlock) *writeSet {
 	saveLines, saveObls, saveNotes := len(g.vc.lines), len(g.vc.obls), len(g.vc.notes)
 	saveDefers, saveRets := len(fr.defers), len(fr.rets)
+	saveClock := g.vc.clock
 	saveWS := g.ws
 	ws := &writeSet{heaps: map[string]bool{}, cells: map[string]bool{}, bases: map[string]map[string]bool{}, all: map[string]bool{}, start: g.vc.fresh, allocSet: g.vc.allocSet}
 	g.ws = ws
@@ -1129,6 +1152,7 @@ func (g *Gen) dryRun(fr *Frame, li *loopInfo, st *State, order []*ssa.BasicBlock
 	g.runBlocks(fr, sub, st, "true", li.body)
 	g.dry--
 	g.ws = saveWS
+	g.vc.clock = saveClock
 	if saveWS != nil {
 		for k := range ws.heaps {
 			if ws.all[k] {
